@@ -28,6 +28,12 @@ add('C11', "property-based testing: model-based check of try_replacen / replace 
     "exploration: 12 replacers x limits 0..3 on every generated (pattern, text); fast path vs slow path agreement; Err instead of panic under a tiny backtrack limit", NOREF, "DESIGN.md section 5 C11")
 add('C16', "property-based testing: metadata oracle computed from the generator's AST (group count, names), two engine forms per pattern",
     "exploration: captures_len / capture_names / Captures::{len,iter,get,name} against the AST for delegated and VM-compiled forms", NOREF, "DESIGN.md section 5 C16")
+add('C03', "property-based testing: metamorphic relation (insert the no-op (?=) at every site; results must not change), exhaustive single sites + random multi-site",
+    "exploration: captures_from_pos of P and of every single-site injection P' compared on every text and offset; the injection provably changes the VM/automata split (measured per case)", NOREF, "DESIGN.md section 5 C03")
+add('C04', "property-based testing: differential against the regex crate over the whole public API on the shared syntax",
+    "exploration: ~60 API calls per (pattern, text) compared with regex::Regex; exhaustive small trees, flag variants, named groups, random ASTs", "trusted: the regex crate as oracle; one-sided compile failures are counted, not judged", "DESIGN.md section 5 C04")
+add('C06', "fuzzing / property-based testing: exhaustive token sequences + proptest random token sequences and mutations of valid patterns, run in worker processes under a counting allocator and RLIMIT_AS",
+    "exploration: every generated string is compiled through Regex::new, Expr::parse_tree and RegexBuilder; panic, overflow, crash, oversized allocation or an out-of-range error position is a counterexample", "trusted: the counting allocator and the 256 MiB + 4 MiB*len peak cap as the stand-in for 'memory proportional to the pattern'; wall clock is only a watchdog", "DESIGN.md section 5 C06")
 
 import os
 TABLE = '/verif/tools/manifest_table.json'
